@@ -26,6 +26,8 @@ pub enum Q {
     Symtab,
     Dynsym,
     Dynamic,
+    /// find_common_data().dynamic (slice parser only)
+    CommonDynamic,
     SysvFind(Vec<u8>),
     GnuFind(Vec<u8>),
     VerReq(usize),
@@ -220,6 +222,7 @@ pub fn plan<E: EndianParse>(f: &ElfBytes<'_, E>, names: &[Vec<u8>], max_sec: usi
     v.push(Q::Symtab);
     v.push(Q::Dynsym);
     v.push(Q::Dynamic);
+    v.push(Q::CommonDynamic);
     for n in names.iter().take(12) {
         v.push(Q::SysvFind(n.clone()));
         v.push(Q::GnuFind(n.clone()));
@@ -325,6 +328,19 @@ pub fn eval_bytes<E: EndianParse>(f: &ElfBytes<'_, E>, q: &Q) -> QR {
             None => d.u(0),
         },
         Q::Dynamic => match f.dynamic().map_err(|_| ())? {
+            Some(t) => {
+                d.u(t.len() as u64);
+                for (k, x) in t.iter().enumerate() {
+                    d.u(x.d_tag as u64);
+                    d.u(x.d_val());
+                    if k > ITEM_CAP {
+                        break;
+                    }
+                }
+            }
+            None => d.u(0),
+        },
+        Q::CommonDynamic => match f.find_common_data().map_err(|_| ())?.dynamic {
             Some(t) => {
                 d.u(t.len() as u64);
                 for (k, x) in t.iter().enumerate() {
@@ -452,7 +468,7 @@ pub fn eval_stream<E: EndianParse, S: Read + Seek>(f: &mut ElfStream<E, S>, q: &
                 };
                 dg_notes(&mut d, f.section_data_as_notes(&h).map_err(|_| ())?)
             }
-            Q::SegData(_) => return Err(()),
+            Q::SegData(_) | Q::CommonDynamic => return Err(()),
             Q::SegNotes(_) | Q::FabSegNotes(_) => {
                 let p = match q {
                     Q::SegNotes(i) => phdr(f, *i)?,
@@ -510,7 +526,7 @@ pub fn eval_stream<E: EndianParse, S: Read + Seek>(f: &mut ElfStream<E, S>, q: &
         }
         Ok(())
     })();
-    if matches!(q, Q::SegData(_) | Q::SysvFind(_) | Q::GnuFind(_)) {
+    if matches!(q, Q::SegData(_) | Q::SysvFind(_) | Q::GnuFind(_) | Q::CommonDynamic) {
         return None;
     }
     Some(r.map(|_| d.0))
